@@ -10,10 +10,11 @@ typedef struct {
 
 typedef __va_elem va_list[1];
 
-#define va_start(ap, last) \
-  do { *(ap) = *(__va_elem *)__va_area__; } while (0)
+// va_start, va_end and va_copy are expressions of type void, so that
+// they can be used wherever a function call could (C11 7.16.1).
+#define va_start(ap, last) ((void)(*(ap) = *(__va_elem *)__va_area__))
 
-#define va_end(ap)
+#define va_end(ap) ((void)0)
 
 static void *__va_arg_mem(__va_elem *ap, int sz, int align) {
   void *p = ap->overflow_arg_area;
@@ -43,13 +44,13 @@ static void *__va_arg_fp(__va_elem *ap, int sz, int align) {
 
 #define va_arg(ap, ty)                                                  \
   ({                                                                    \
-    int klass = __builtin_reg_class(ty);                                \
-    *(ty *)(klass == 0 ? __va_arg_gp(ap, sizeof(ty), _Alignof(ty)) :    \
-            klass == 1 ? __va_arg_fp(ap, sizeof(ty), _Alignof(ty)) :    \
+    int __va_klass = __builtin_reg_class(ty);                           \
+    *(ty *)(__va_klass == 0 ? __va_arg_gp(ap, sizeof(ty), _Alignof(ty)) : \
+            __va_klass == 1 ? __va_arg_fp(ap, sizeof(ty), _Alignof(ty)) : \
             __va_arg_mem(ap, sizeof(ty), _Alignof(ty)));                \
   })
 
-#define va_copy(dest, src) ((dest)[0] = (src)[0])
+#define va_copy(dest, src) ((void)((dest)[0] = (src)[0]))
 
 #define __GNUC_VA_LIST 1
 typedef va_list __gnuc_va_list;
